@@ -13,6 +13,9 @@ import os
 
 from bumpver import config
 from vp.memfs import MemFS, NS
+from vp import hygiene
+
+hygiene.snapshot_module_state(config)
 
 P = json.loads(os.environ.get("VP_PARAMS", "{}"))
 FIX = P.get("fix", {})
@@ -84,7 +87,11 @@ def build(commit, tag, push, scope, msg, files, spell, quote, own_listed, hook=0
         toml += [f'    "{p}",' for p in pats]
         toml.append("]")
         fp[path] = list(pats)
-    d["file_patterns"] = fp
+    if fp or own_listed or files:
+        d["file_patterns"] = fp
+    else:
+        # "0 files": the optional table is absent altogether
+        toml = [ln for ln in toml if ln != f"[{tsec}.file_patterns]"]
     full = d
     if TOML_FILE == "pyproject.toml":
         full = {"tool": {"bumpver": d}}
@@ -126,11 +133,23 @@ def same_meaning(commit: bool, tag: int, push: int, scope: int, msg: int, files:
     pre: fx("spell", spell) and fx("quote", quote) and fx("files", files) and fx("msg", msg) and fx("own_listed", own_listed)
     post: _
     """
+    hygiene.restore_module_state(config)
+    hygiene.reset_mutable_defaults(config)
     ini_text, toml_text, toml_dict = build(commit, tag, push, scope, msg, files, spell, quote, own_listed, hook)
     a = _norm(_parse("setup.cfg", ini_text), "setup.cfg")
     b = _norm(_parse(TOML_FILE, toml_text, toml_dict), TOML_FILE)
     if a != b:
         return False
+    if TOML_FILE == "bumpver.toml" and not LEGACY_SECTION:
+        # a second project file of the other TOML name, read in the same process, means the same again
+        toml_text2 = toml_text.replace('"bumpver.toml" = [', '".bumpver.toml" = [')
+        d2 = copy.deepcopy(toml_dict)
+        fp2 = d2["bumpver"].get("file_patterns")
+        if fp2 and "bumpver.toml" in fp2:
+            fp2[".bumpver.toml"] = fp2.pop("bumpver.toml")
+        c = _norm(_parse(".bumpver.toml", toml_text2, d2), ".bumpver.toml")
+        if c != a:
+            return False
     must_reject = ((tag == 2 or push == 2) and not commit) or hook == 2
     if must_reject:
         return a is None
